@@ -7,11 +7,13 @@ simple-no-promote / simple-promote generators return exactly the corresponding s
 disjoint union of the capture and non-capture outputs and the non-capture output of its promotion and non-promotion
 parts; `semilegalGen_nodup`: no duplicates; `generated_names_piece`: every generated move is well-formed and names the
 man on its source square.
-Not proved here: `Move::new` accepts exactly the geometrically possible tuples (`Spec.geomPossible`) — differential.
+`move_new_iff_geom` (Lemmas/WfGeom): `Move::new` accepts exactly the geometrically possible (kind, piece, source,
+destination) tuples, for all 532,480 tuples.
 -/
 import OwlModel.Lemmas.GenNodup
 import OwlModel.Lemmas.PseudoSpec
 import OwlModel.Props.C02
+import OwlModel.Lemmas.WfGeom
 
 namespace Owl.Props.C06
 open Owl Owl.Impl Owl.Lemmas Owl.Props
@@ -98,5 +100,12 @@ theorem generated_names_piece (b : Board) (hv : Valid b) (w : Which) (mv : Move)
     mv.isWellFormed = true ∧ b.get mv.src = mv.cell := by
   obtain ⟨h1, h2, _⟩ := (semilegalGen_iff b hv w mv).mp h
   exact ⟨h1, (semilegal_base b mv h2).2.1⟩
+
+/-- C06: move construction accepts exactly the (kind, piece, source, destination) tuples that are geometrically
+possible for that kind, so validation never sees a tuple it cannot handle -/
+theorem move_new_iff_geom (k : Kind) (c : Cell) (s d : Sq) :
+    (Move.new? k c s d).isSome = Spec.geomPossible k (absCell c) s d ∧
+    Move.isWellFormed ⟨k, c, s, d⟩ = Spec.geomPossible k (absCell c) s d :=
+  ⟨new?_iff k c s d, wf_iff_geom k c s d⟩
 
 end Owl.Props.C06
